@@ -10,10 +10,10 @@ CONSTANTS Weights = {50, 100}
  GpFields = {"gasPrice"}
  BoxCfgs <- McPlainOnly
  Kinds = {}
- ReconfCfgs <- McNegCfgs
+ ReconfCfgs <- McPlainOnly
  NewCfgs <- McNegNew
- Slices = {"sigs", "tamper", "payer", "junk", "box", "reconf"}
- Dev = {"Neg_OwnPayerUnchecked"}
+ Slices = {"sigs", "reconf", "stale"}
+ Dev = {"Neg_StaleSigners"}
 VIEW View
-PROPERTIES ChangeCovered
+PROPERTIES EffectOnlyIfAuthorized
 CHECK_DEADLOCK FALSE
